@@ -357,7 +357,40 @@ func runHistory10(g *cv.Gen, t *Tables, res *hx.Result, st *stores, out string, 
 	if L > maxLen+len(script) {
 		L = maxLen + len(script)
 	}
+	restartP := 24
+	if strings.HasPrefix(class, "restart") {
+		restartP = 7
+	}
 	for i := 0; i < L && !c.Removed; i++ {
+		if (i < len(script) && script[i] == "Restart") || (i >= len(script) && g.R.Intn(restartP) == 0) {
+			// the process comes up again: a new PersistRestorer on the same database, the machine rebuilt
+			// from what it restores and used further through the new persister
+			before := c.Live()
+			h.cur = nil
+			h.opLog = append(h.opLog, "Restart")
+			pr = keyvalue.NewPersistRestorer(fdb)
+			outc := "OK"
+			ch, err := pr.RestoreChannel(bg, c.ID())
+			if err == nil {
+				err = c.Restart(pr, ch)
+			}
+			if err != nil {
+				outc = "ERR"
+				h.fail("RestoreChannel", class+"/Restart", "the channel cannot be restored at a restart: "+err.Error())
+			}
+			after := c.Live()
+			if !snapEq(before, after, c.N) {
+				h.fail("RestoreChannel", "Restart", fmt.Sprintf("the machine rebuilt at a restart is %v but the machine before the restart was %v", after, before))
+			}
+			bs := []boundary{h.observe()}
+			h.cur = nil
+			h.render(bs)
+			h.judge("Restart", true, &before, &before, bs)
+			opT = append(opT, "PRestart")
+			obsT = append(obsT, "(R"+outc+", "+bterms(bs)+")")
+			res.Count(class+"/Restart", outc, fmt.Sprintf("Restart/%d/%v/%s", before.Phase, before.Staging.State != nil, sigMask(before.Staging.Sigs)), false)
+			continue
+		}
 		var o Op
 		if i < len(script) {
 			o = c.resolve(script[i])
@@ -366,7 +399,7 @@ func runHistory10(g *cv.Gen, t *Tables, res *hx.Result, st *stores, out string, 
 		}
 		before := c.Live()
 		h.cur = nil
-		term := c.opTerm(o)
+		term := "(PO " + c.opTerm(o) + ")"
 		h.opLog = append(h.opLog, o.Kind+"("+o.Class+")")
 		outc, sig, errText := c.Apply(o)
 		after := c.Live()
@@ -451,7 +484,8 @@ func boundaryParts(k int, big bool) int {
 	return 0
 }
 
-var classes10 = []string{"random", "lifecycle", "sign-discard-update", "force-over-signed", "progress-from-signing", "random", "init-resign"}
+var classes10 = []string{"random", "lifecycle", "sign-discard-update", "restart-discard-update", "force-over-signed", "restart-force",
+	"progress-from-signing", "restart-progress", "random", "init-resign", "restart-random"}
 
 // RunC10 is the driver of property C10.
 func RunC10(seed int64, tier, out string) {
